@@ -209,14 +209,15 @@ def load_known(prop_id):
 SRC_TIE = {
     'C01': ['Codec'], 'C02': ['Codec'], 'C03': ['Codec'],
     'C04': ['Tok'], 'C05': ['Tok'], 'C06': ['Tok'], 'C18': ['Tok'], 'C19': ['Tok'],
-    'C07': ['Vlq', 'Tracks', 'Writer', 'Reader'], 'C08': ['Vlq', 'Writer', 'Reader'], 'C09': ['Meta', 'Vlq'],
+    'C07': ['Vlq', 'VlqRead', 'Tracks', 'Writer', 'Reader'], 'C08': ['Vlq', 'VlqRead', 'Writer', 'Reader'], 'C09': ['Meta', 'Vlq'],
     'C12': ['Tracks'], 'C16': ['Tracks'],
 }
 SRC_TIE_FILES = {
     'Codec': ['mido/messages/encode.py', 'mido/messages/decode.py', 'mido/messages/checks.py'],
     'Tok': ['mido/tokenizer.py'],
     'Meta': ['mido/midifiles/meta.py'],
-    'Vlq': ['mido/midifiles/meta.py', 'mido/midifiles/midifiles.py'],
+    'Vlq': ['mido/midifiles/meta.py'],
+    'VlqRead': ['mido/midifiles/midifiles.py'],
     'Tracks': ['mido/midifiles/tracks.py'],
     'Writer': ['mido/midifiles/midifiles.py', 'mido/midifiles/tracks.py', 'mido/midifiles/meta.py'],
     'Reader': ['mido/midifiles/midifiles.py'],
